@@ -211,7 +211,7 @@ def _wallclock(ctx, n):
     return samples
 
 
-@check('C13', ['C13.v'])
+@check('C13', ['C13.v', 'C13src.v'])
 def c13(ctx):
     extra = 2000 if ctx.quick else 100000
     rc, out, err, stats = harness(['time', 't13', str(extra)])
@@ -1022,7 +1022,7 @@ for _p in ('C03', 'C04', 'C05', 'C10', 'C14'):
     REPLAYS[_p] = replay_search
 
 
-@check('C05', ['C05.v', 'C05mate.v'])
+@check('C05', ['C05.v', 'C05mate.v', 'C05src.v'])
 def c05(ctx):
     n = 260 if ctx.quick else 6000
     allpos = S.positions(ctx, n, extra_seed=5)
@@ -1714,7 +1714,7 @@ CAPTURE_HEAVY = ['qqqqkqqq/8/8/8/8/8/8/QQQQKQQQ w - - 0 1', 'rnbqkbnr/8/8/8/8/8/
                  'q3k2q/1q4q1/2q2q2/3qq3/3QQ3/2Q2Q2/1Q4Q1/Q3K2Q w - - 0 1']
 
 
-@check('C18', ['C18.v', 'C18chess.v'])
+@check('C18', ['C18.v', 'C18chess.v', 'C18src.v'])
 def c18(ctx):
     jobs = []
     # move numbers a GUI can send
